@@ -49,7 +49,7 @@ def schedules(draw, P):
         return {"kind": "pct", "prios": prios, "changes": sorted(changes)}
     if kind == "te":
         # timer-eager: at k drawn decisions an eligible timer (idle timeout, polling sleep) fires although tasks are runnable
-        k = draw(st.integers(1, 6))
+        k = draw(st.integers(1, P.get("te_max", 6)))
         pts = draw(st.lists(st.tuples(st.integers(0, P.get("pb_horizon", 500)), st.integers(-3, -1)), min_size=k, max_size=k))
         k2 = draw(st.integers(0, 2))
         pts += draw(st.lists(st.tuples(st.integers(0, P.get("pb_horizon", 500)), st.integers(1, 6)), min_size=k2, max_size=k2))
@@ -59,7 +59,9 @@ def schedules(draw, P):
         pts = draw(st.lists(st.tuples(st.integers(0, P.get("pb_horizon", 500)), st.integers(1, 6)),
                             min_size=k, max_size=k))
         return {"kind": "pb", "preempt": [list(x) for x in pts]}
-    ch = draw(st.lists(st.sampled_from([0, 0, 0, 0, 1, 1, 2, 3, 4, 5]), min_size=0, max_size=P.get("rw_len", 250)))
+    ch = draw(st.lists(st.sampled_from([0, 0, 0, 0, 1, 1, 2, 3, 4, 5]), min_size=P.get("rw_min", 0), max_size=P.get("rw_len", 250)))
+    if P.get("rw_cycle"):
+        return {"kind": "rw", "choices": ch, "cycle": P["rw_cycle"]}
     return {"kind": "rw", "choices": ch}
 
 
@@ -271,9 +273,17 @@ def delivery_cases(draw, P):
     cur = mw
     if kind == "reusable":
         ops.append(["get", {"max_workers": mw, "timeout": timeout, "reuse": "auto", "kill_workers": False}])
-    for _ in range(draw(st.integers(0, 3))):
-        what = draw(st.sampled_from(["echo", "echo", "sleep", "resize", "wait"]))
-        if what == "echo":
+    early_gate = False
+    for _ in range(draw(st.integers(0, 4))):
+        what = draw(st.sampled_from(["echo", "echo", "sleep", "sleep", "resize", "wait", "gate"]))
+        if what == "gate":
+            # a long task keeps one worker busy while the others may idle out: the later submits must top the pool up
+            ops.append(["submit", {"kind": "gate", "token": tok, "g": 0}])
+            tok += 1
+            early_gate = True
+        elif what in ("wait", "resize") and early_gate:
+            continue
+        elif what == "echo":
             for _ in range(draw(st.integers(1, 4))):
                 ops.append(["submit", {"kind": "echo", "token": tok}])
                 tok += 1
